@@ -7,38 +7,56 @@
 (* linearization point and response so that recorded concurrent            *)
 (* executions can be validated (TableSwap_Trace): RLin and WLin are the    *)
 (* silent steps.                                                           *)
+(* Builders: tables are built from configuration text by several           *)
+(* activities at once (the update loop, the registry backends validating   *)
+(* every generated command, the custom backend, the admin API).  A build   *)
+(* is a function of its own text: BInv(b, v) starts building the text of   *)
+(* version v, BRet(b) hands back exactly the table of v, whatever other    *)
+(* builds, installs and lookups run meanwhile (BuildIsolated).             *)
 (***************************************************************************)
 EXTENDS Integers, Sequences, FiniteSets
 
-CONSTANTS Readers, Versions, MaxWrites, Probes
+CONSTANTS Readers, Versions, MaxWrites, Probes, Builders, MaxBuilds
 \* Versions: set of table names; Probes: number of probes per lookup
 
-VARIABLES cur, wpc, wval, nw, rpc, snap
-vars == <<cur, wpc, wval, nw, rpc, snap>>
+VARIABLES cur, wpc, wval, nw, rpc, snap, bpc, btext, built, nb
+vars == <<cur, wpc, wval, nw, rpc, snap, bpc, btext, built, nb>>
+bvars == <<bpc, btext, built, nb>>
 
 Init == /\ cur = "init" /\ wpc = "idle" /\ wval = "init" /\ nw = 0
         /\ rpc = [r \in Readers |-> "idle"] /\ snap = [r \in Readers |-> "none"]
+        /\ bpc = [b \in Builders |-> "idle"] /\ btext = [b \in Builders |-> "none"]
+        /\ built = [b \in Builders |-> "none"] /\ nb = 0
 
 WInv(v) == /\ wpc = "idle" /\ nw < MaxWrites /\ wpc' = "inv" /\ wval' = v /\ nw' = nw + 1
-           /\ UNCHANGED <<cur, rpc, snap>>
+           /\ UNCHANGED <<cur, rpc, snap, bvars>>
 WLin    == /\ wpc = "inv" /\ wpc' = "done" /\ cur' = wval
-           /\ UNCHANGED <<wval, nw, rpc, snap>>
+           /\ UNCHANGED <<wval, nw, rpc, snap, bvars>>
 WRet    == /\ wpc = "done" /\ wpc' = "idle"
-           /\ UNCHANGED <<cur, wval, nw, rpc, snap>>
+           /\ UNCHANGED <<cur, wval, nw, rpc, snap, bvars>>
 RInv(r) == /\ rpc[r] = "idle" /\ rpc' = [rpc EXCEPT ![r] = "inv"]
-           /\ UNCHANGED <<cur, wpc, wval, nw, snap>>
+           /\ UNCHANGED <<cur, wpc, wval, nw, snap, bvars>>
 RLin(r) == /\ rpc[r] = "inv" /\ rpc' = [rpc EXCEPT ![r] = "loaded"] /\ snap' = [snap EXCEPT ![r] = cur]
-           /\ UNCHANGED <<cur, wpc, wval, nw>>
+           /\ UNCHANGED <<cur, wpc, wval, nw, bvars>>
 \* the response: every probe answered from the loaded version
 Answer(r) == [p \in 1..Probes |-> snap[r]]
 RRet(r) == /\ rpc[r] = "loaded" /\ rpc' = [rpc EXCEPT ![r] = "idle"]
-           /\ UNCHANGED <<cur, wpc, wval, nw, snap>>
+           /\ UNCHANGED <<cur, wpc, wval, nw, snap, bvars>>
+\* a build reads nothing but its own text and publishes nothing
+BInv(b, v) == /\ bpc[b] = "idle" /\ nb < MaxBuilds /\ nb' = nb + 1
+              /\ bpc' = [bpc EXCEPT ![b] = "building"] /\ btext' = [btext EXCEPT ![b] = v]
+              /\ UNCHANGED <<cur, wpc, wval, nw, rpc, snap, built>>
+BRet(b)    == /\ bpc[b] = "building" /\ bpc' = [bpc EXCEPT ![b] = "idle"]
+              /\ built' = [built EXCEPT ![b] = btext[b]]
+              /\ UNCHANGED <<cur, wpc, wval, nw, rpc, snap, btext, nb>>
 Next == (\E v \in Versions : WInv(v)) \/ WLin \/ WRet \/ (\E r \in Readers : RInv(r) \/ RLin(r) \/ RRet(r))
+        \/ (\E b \in Builders : BRet(b) \/ \E v \in Versions : BInv(b, v))
 Spec == Init /\ [][Next]_vars
 
 TypeOK == cur \in Versions \cup {"init"} /\ \A r \in Readers : snap[r] \in Versions \cup {"init", "none"}
 \* a lookup is answered from exactly one complete version, one that was current while it ran
 ReaderSingleVersion == \A r \in Readers : rpc[r] = "loaded" =>
                           \A p, q \in 1..Probes : Answer(r)[p] = Answer(r)[q]
+BuildIsolated == \A b \in Builders : bpc[b] = "idle" /\ built[b] # "none" => built[b] = btext[b]
 ReadsInstalled == \A r \in Readers : rpc[r] = "loaded" => snap[r] \in Versions \cup {"init"}
 =============================================================================
